@@ -101,6 +101,8 @@ type G struct {
 	viewState *chain.State
 	view      *monitor.View
 
+	formatsDone bool // formatsBoundary ran
+
 	// file is the trace file name reported in findings (defaults to the generated name).
 	file string
 
@@ -193,6 +195,9 @@ func (g *G) Begin(t time.Time) chain.StepResult {
 
 // Commit ends the open block; at sampled points a genesis round trip follows.
 func (g *G) Commit() {
+	if g.rtAt[g.Stats.Commits+1] {
+		g.formatsBoundary() // rows at the edges of the format validators, before the round trip
+	}
 	g.Rec.Commit()
 	g.Stats.Commits++
 	g.hash = append(g.hash, "C")
